@@ -60,6 +60,9 @@ func enumPaths(root reflect.Type, maxLen int, side int) []pathInfo {
 				t = t.Elem()
 			}
 			add := func(seg string, lt reflect.Type, v bool) {
+				if !keepPath(root, append(append([]string{}, p.Path...), seg)) {
+					return
+				}
 				np := pathInfo{Path: append(append([]string{}, p.Path...), seg), Leaf: lt, ViaAny: v, Chain: p.Chain + ">" + kindName(lt)}
 				next = append(next, np)
 			}
